@@ -83,7 +83,7 @@ def run(cx):
                 val = (labels == {"true"}) != neg
                 if name_matches(s[1], "vec::Vec::is_empty") and mentions_field(s[2][0], "address") and mentions_param(s[2][0], "peer_info"):
                     return "no-address=" + str(val).lower()
-                if name_matches(s[1], f"{CM}::ActivePeersInner::contains") and mentions_upvar(s[2][0], "active_peers") and pid(s[2][1]):
+                if name_matches(s[1], "HashMap::contains_key") and mentions_field(s[2][0], "connections") and mentions_upvar(s[2][0], "active_peers") and pid(s[2][1]):
                     return "connected=" + str(val).lower()
                 if name_matches(s[1], "HashMap::contains_key") and mentions_upvar(s[2][0], "self__pending_dials") and pid(s[2][1]):
                     return "pending=" + str(val).lower()
